@@ -255,8 +255,8 @@ func frontJudge(c *Ctx, cs *Case, wantTree bool) bool {
 		return false
 	}
 	for _, d := range diags {
-		if d.Channel != "static" {
-			c.Violate(Violation{Why: "rejection produced a non-static diagnostic", Observed: describeObs(o), Signature: "reject-diag-channel"})
+		if d.Channel == "runtime" {
+			c.Violate(Violation{Why: "rejection produced a runtime diagnostic", Observed: describeObs(o), Signature: "reject-diag-channel"})
 			return false
 		}
 		if d.Line < 1 || d.Line > v.Lines {
